@@ -25,7 +25,7 @@ HARNESS = os.path.join(ROOT, "harness/c10/zz_verif_c10_test.go")
 PKG = "./internal/index/manager/"
 RUN = os.path.join(BUILD, "run", "c10")
 TAGDEFS = ['cdata:"a"', 'cdata:"bb"', 'cdata:"c"']
-GEN_VERSION = 6
+GEN_VERSION = 7
 KF_REFETCH = "view-refetch-empty"
 
 
@@ -78,7 +78,7 @@ def gen_scenario(rng, name, big=False):
 
 def gen_conv_scenario(rng, name):
     """Histories with a converter executable: a tag carries the converter, converter jobs hold the index list; the
-    converter is detached / removed / re-added while its job is parked. Not in the Coq model (direct oracles only)."""
+    converter is detached / removed / re-added while its job is parked."""
     sc = gen_scenario(rng, name)
     sc["conv"], sc["bad"], sc["tags"] = True, [], TAGDEFS[:rng.randint(0, 1)]
     sc["caps"] = [c if c else [[0, 1]] for c in sc["caps"]]
@@ -474,29 +474,41 @@ def uid_map(steps):
 
 
 def model_case_text(sc, trace):
+    """Action list for the model driver. Every action is preceded by the environment inputs the model does not compute
+    (tag evaluation and converter caches are C06/C16): the number of uncertain tags after the closure and whether
+    the converter scheduler found work in it (= a converter job was launched), both observed on the implementation."""
     lines = ["H " + sc["name"]]
-    if sc.get("conv"):
-        return lines[0] + "\n"          # converter jobs are not in the model
     for k, pk in enumerate(sc["caps"]):
         lines.append("cap %d %s" % (k, " ".join("%d:%d" % (f, n) for f, n in pk)))
     for k in sc.get("bad", []):
         lines.append("bad %d" % k)
+    prevparked = {}
     for s in trace["steps"]:
         act = s.get("act")
         if not act or s.get("fatal"):
             continue
+        parked = s.get("parked") or {}
+        if act[0] not in ("init", "end"):
+            lines.append("envunc %d" % s["st"]["unc"])
+            launched = "convert" in parked and ("convert" not in prevparked or act[:2] == ["complete", "convert"])
+            lines.append("envconv %d" % (1 if launched else 0))
         if act[0] == "import":
             lines.append("import " + " ".join(str(k) for k in act[1]))
         elif act[0] in ("view", "read", "release"):
             lines.append("%s %d" % (act[0], act[1]))
-        elif act[0] == "tagadd":
+        elif act[0] in ("tagadd", "convtag"):
             lines.append("tagadd")
         elif act[0] in ("tagdel", "tagupd"):
-            lines.append("%s %d %d" % (act[0], int(act[2]), int(act[3])))
+            lines.append("%s %d" % (act[0], int(act[3])))
+        elif act[0] in ("convattach", "convdetach"):
+            lines.append("convset")
+        elif act[0] in ("convremove", "convadd"):
+            lines.append(act[0])
         elif act[0] in ("start", "complete"):
             lines.append("%s %s" % (act[0], act[1]))
         elif act[0] in ("init", "end"):
             lines.append("obs")
+        prevparked = parked
     return "\n".join(lines) + "\n"
 
 
@@ -519,7 +531,7 @@ def impl_projection(trace):
                             for v, ob in (s.get("views") or {}).items()),
             "queue": [int(n[1:4]) for n in st["queue"]],
             "jobs": sorted((s.get("parked") or {}).items()),
-            "unc": (st["unc"], st["ntags"]),
+            "unc": st["unc"],
             "next": st["next"],
         }
         out.append(o)
@@ -553,7 +565,7 @@ def parse_model_line(line):
         "views": sorted(views),
         "queue": [int(x) for x in o["queue"].split(",") if x],
         "jobs": sorted(tuple(e.split(":")) for e in o["jobs"].split(",") if e),
-        "unc": tuple(int(x) for x in o["unc"].split("/")),
+        "unc": int(o["unc"]),
         "next": int(o["next"]),
     }
 
@@ -689,7 +701,7 @@ def exhaustive_scenarios(exe):
                 elif a[0] == "release":
                     f.write("api release %d\n" % a[1])
                 elif a[0] in ("tagdel", "tagupd"):
-                    f.write("api %s1\n" % a[0])
+                    f.write("api %s1\n" % a[0])     # single-tag history: the driver derives the flags
                 else:
                     f.write("api tagadd\n")
             f.write("limit %d\n" % limit)
@@ -815,7 +827,7 @@ def main_for(prop, tier, seed, replay=None):
             feats_all[f] = feats_all.get(f, 0) + 1
         if len(tr["steps"]) >= 6 and ("merge-completed" in feats or "view-opened-while-jobs-in-flight" in feats):
             nontrivial.add(json.dumps([sc["caps"], [s.get("act") for s in tr["steps"]]]))
-        mf, drift = ([], []) if sc.get("conv") else compare_model(sc, tr, mouts[idx] if idx < len(mouts) else [], prop)
+        mf, drift = compare_model(sc, tr, mouts[idx] if idx < len(mouts) else [], prop)
         drift_all += drift
         if replay:
             print("scenario:", json.dumps(sc))
